@@ -55,7 +55,9 @@ let read_out r s a o nb : out =
    (Eigen branch); "dense" is the reference for the paths-agree clause *)
 (* dense = POMDP::Model<MDP::Model>, sparse = POMDP::SparseModel<MDP::SparseModel>,
    mixDS = POMDP::Model<MDP::SparseModel>, mixSD = POMDP::SparseModel<MDP::Model>, generic = user-defined *)
-let kinds_bel = ["dense"; "sparse"; "mixDS"; "mixSD"; "generic"]
+(* userEV = user-defined IsModelEigen model returning dense matrices BY VALUE,
+   userCS = user-defined IsModelEigen model with COLUMN-major sparse matrices (both take the Eigen branches) *)
+let kinds_bel = ["dense"; "sparse"; "mixDS"; "mixSD"; "generic"; "userEV"; "userCS"]
 let kinds_reset = ["dense"; "dense-m"; "dense-c"; "sparse"; "sparse-m"; "sparse-d"; "sparse-c"; "generic"]
 
 (* Judges one set of outputs (one "ok …"/"throw …" block per model variant in [kinds]) against the POMDP
@@ -368,6 +370,60 @@ let judge _id (c : cursor) (r : cursor) : bool * string =
         snapshot ctx st_or';
         (k + 1, st_or', st_md')) (1, m0, m0) ops in
     finish (if !rejected_seen then "hist-rej-" else "hist-") !flags
+  | "conv" ->
+    (* sparse models built by conversion from sources whose observation rows have sub-threshold tails: the
+       conversion may refuse; if it yields a model, that model holds the sparsified tables (entries <= 1e-6
+       dropped), its updates must be the Bayes filter of THOSE tables, and the sum over observations must be
+       the prediction within the library's own tolerance for "is a probability" (1e-6, relative): by
+       obs_total_general the deviation is exactly the dropped row mass *)
+    let (tT, tO, tR) = read_tables () in
+    let nb = next_int c in
+    let beliefs = read_n c nb (fun c -> read_n c s next_q) in
+    let m = mk_pomdp (n s) (n a) (n o) tT tO tR (q_of_ints 1 2) in
+    if not (wf_pomdpb m) then failwith "generator bug: conv source is not a well-formed POMDP";
+    let ms = sparse_of m in
+    let tol = q_of_ints 1 1000000 in
+    let built = ref 0 and refused = ref 0 in
+    List.iter (fun k ->
+        match next r with
+        | "throw" -> ignore (next r); incr refused
+        | "THROW" -> oracle_fail "paths_agree" ("construct<" ^ k ^ ">") ("exception escaped the harness: " ^ next r)
+        | "ok" ->
+          incr built;
+          let out = read_out r s a o nb in
+          List.iteri (fun bi per_b ->
+              let b = List.nth beliefs bi in
+              List.iteri (fun ai pa ->
+                  let pred = predict_r ms b (n ai) in
+                  let uns = List.mapi (fun oi po ->
+                      let stu = "updateBeliefUnnormalized<" ^ k ^ ">" in
+                      let un = List.map (fin "unnorm_is_bayes" stu) po.un in
+                      let spec = tau_step_r ms b (n ai) (n oi) in
+                      if not (veqb un spec) then
+                        oracle_fail "unnorm_is_bayes" stu
+                          (Printf.sprintf "b#%d a=%d o=%d: got [%s], Bayes filter of the stored (sparsified) tables [%s]" bi ai oi (str_qs un) (str_qs spec));
+                      let pun = List.map (fin "two_stage_eq" ("updateBeliefPartialUnnormalized<" ^ k ^ ">")) po.pun in
+                      if not (veqb pun un) then oracle_fail "two_stage_eq" ("updateBeliefPartialUnnormalized<" ^ k ^ ">") (Printf.sprintf "b#%d a=%d o=%d: two-stage differs from one-stage" bi ai oi);
+                      let su = qsum_l un in
+                      if q_lt q_zero su then begin
+                        let st = "updateBelief<" ^ k ^ ">" in
+                        let p = List.map (fin "normalised_is_posterior" st) po.nm in
+                        if not (check_nonneg p && fclose (qsum_l p) q_one) then oracle_fail "normalised_is_posterior" st (Printf.sprintf "b#%d a=%d o=%d: posterior [%s]" bi ai oi (str_qs p));
+                        List.iteri (fun i pi -> if not (fclose pi (vio_qdiv (List.nth un i) su)) then
+                                       oracle_fail "normalised_is_posterior" st (Printf.sprintf "b#%d a=%d o=%d: posterior[%d] not proportional" bi ai oi i)) p
+                      end;
+                      un) pa.os in
+                  let tot = vsum (n s) uns in
+                  List.iteri (fun i t ->
+                      let p = List.nth pred i in
+                      if not (q_le (q_abs (q_sub t p)) (q_mul tol p)) then
+                        oracle_fail "sum_over_obs_is_prediction" ("updateBeliefUnnormalized<" ^ k ^ ">")
+                          (Printf.sprintf "b#%d a=%d s'=%d: sum_o unnorm = %s, prediction = %s: the converted model lost more than 1e-6 of the probability mass" bi ai i (string_of_q t) (string_of_q p))) tot)
+                per_b) out.bels
+        | t -> failwith ("unexpected token in implementation output: " ^ t))
+      ["sparse-cd"; "sparse-cg"; "mixSD-cd"];
+    if not (at_end r) then failwith "trailing tokens in implementation output";
+    (s >= 3, Printf.sprintf "conv-S%d-O%d-built%d-refused%d" s o !built !refused)
   | "seq" ->
     (* filtering along a history: after k steps the belief must be the composed unnormalised filter
        tau_hist divided by its sum P(o_1..o_k | b, a_1..a_k), as long as that probability is positive *)
